@@ -185,19 +185,20 @@ def props_assumptions(pid, ctx):
     return {'theorems': names, 'printed': pa, 'assumptions': res}, out
 
 
-def check_obligations(ctx, theorems, vfiles=None):
+def check_obligations(ctx, theorems, extra_targets=None):
     """Step 2 of a check run: build, audit, assumptions.  theorems = names that must exist in Props/<pid>.v."""
     pid = ctx.pid
     bad = coq_audit_sources()
     if bad:
         ctx.broken.append('source audit: ' + '; '.join(bad[:5]))
-    ok, log = coq_build()
+    ok, log = coq_build(targets=['Props/%s.vo' % pid] + list(extra_targets or []))
     ctx.notes['build_ok'] = ok
     ctx.obligations += len(theorems)
     if not ok:
-        errs = re.findall(r'File "([^"]+)", line (\d+)[^\n]*\n(?:[^\n]*\n){0,3}?Error:[^\n]*(?:\n[^\n]*)?', log)
         ctx.notes['build_errors'] = log[-3000:]
-    info, out = props_assumptions(pid, ctx) if os.path.exists(os.path.join(COQ, 'Props', pid + '.vo')) else (None, log)
+        ctx.broken.append('proof obligations of Props/%s.v no longer check: %s' % (pid, first_error(log)))
+        return False
+    info, out = props_assumptions(pid, ctx)
     if info is None:
         ctx.broken.append('Props/%s.v does not compile: %s' % (pid, first_error(out if out else log)))
         return False
